@@ -19,10 +19,11 @@ for d in seeded/C*/; do
   id=$(basename "$d")
   # a seeded change whose defect class has since been repaired in /repo no longer violates the property (see its meta.json)
   if grep -q '"status": "obsolete' "$d/meta.json" 2>/dev/null; then echo "| seeded/$id/patch.diff | $id | OBSOLETE (see seeded/$id/meta.json) | |"; continue; fi
-  r=$(tools/muttest.sh "$d/patch.diff" "$id" 2>&1 | tail -1)
+  chk=$(echo "$id" | cut -c1-3)   # seeded/C05b is a second seed for C05
+  r=$(tools/muttest.sh "$d/patch.diff" "$chk" 2>&1 | tail -1)
   res=$(echo "$r" | awk '{print $1}')
   key=$(echo "$r" | sed -n 's/.*violation key=\([^ ]*\): .*/\1/p' | cut -c1-90)
-  echo "| seeded/$id/patch.diff | $id | $res | \`$key\` |"
+  echo "| seeded/$id/patch.diff | $chk | $res | \`$key\` |"
 done
 } > "$OUT.tmp" && mv "$OUT.tmp" "$OUT"
 grep -c DETECTED "$OUT"; grep -c MISSED "$OUT"
